@@ -8,7 +8,8 @@
 (* methods and locations (or a migrated consumer), random initial sources  *)
 (* (missing / file / directory / symbolic link), then a stage-in followed  *)
 (* by random events: a source is rewritten / removed / created, the task   *)
-(* writes into its working directory, the experiment is restarted with or  *)
+(* writes into its working directory, a loop gets its next iteration, the  *)
+(* experiment is restarted with or                                          *)
 (* without restaging, Job.stageIn is called again.  One record is logged   *)
 (* per StageReference call / updateInputs / end of a stage-in / event:     *)
 (*   [lab: the label the specification gives that step,                    *)
@@ -32,10 +33,10 @@ allvars == <<vars, tvars>>
 
 Range(s) == {s[i] : i \in DOMAIN s}
 EntOf(j) == [k |-> j.k, c |-> j.c, to |-> j.to]
-SrcOf(j) == [x \in Locs |-> IF x = "pp" THEN Tree ELSE IF x = "pg" THEN Glob ELSE EntOf(j[x])]
+SrcOf(j) == [x \in Locs |-> IF x = "pp" THEN Tree ELSE IF x = "pg" THEN Glob ELSE IF x = "wa" THEN Holder ELSE EntOf(j[x])]
 WdOf(j) == {[p |-> e.p, k |-> e.k, c |-> e.c, to |-> e.to] : e \in Range(j)}
 RefsOf(j) == [i \in DOMAIN j |-> [m |-> j[i].m, l |-> j[i].l]]
-NoSrc == [x \in Locs |-> IF x = "pp" THEN Tree ELSE IF x = "pg" THEN Glob ELSE None]
+NoSrc == [x \in Locs |-> IF x = "pp" THEN Tree ELSE IF x = "pg" THEN Glob ELSE IF x = "wa" THEN Holder ELSE None]
 
 TraceInit == /\ all = ndJsonDeserialize(TraceFile)
              /\ tid = 0 /\ pos = 0 /\ todo = <<>>
@@ -46,12 +47,13 @@ Start(t) == /\ tid = 0
             /\ refs' = RefsOf(all[t].refs) /\ rep' = all[t].rep /\ mig' = all[t].mig
             /\ src' = SrcOf(all[t].src0) /\ isrc' = SrcOf(all[t].src0)
             /\ gok' = [v |-> FALSE, wd |-> {}, src |-> SrcOf(all[t].src0)]
-            /\ UNCHANGED <<wd, wdlink, inputs, pc, plan, idx, miss, res, staged, launch, tick, nmut, nwr, nrs, nag, nev, restarted,
+            /\ UNCHANGED <<niter, wd, wdlink, inputs, pc, plan, idx, miss, res, staged, launch, tick, nmut, nwr, nrs, nag, nev, restarted,
                            own, bsame, bwd, wtop, clean, dev, hist>>
 
 Observed(s) == /\ hist'[Len(hist')] = [e |-> s.lab.e, a |-> s.lab.a, b |-> s.lab.b, n |-> s.lab.n]
                /\ wd' = WdOf(s.wd)
-               /\ \A x \in Locs \ {"pp", "pg"} : src'[x] = EntOf(s.src[x])
+               /\ \A x \in Locs \ Virtual : src'[x] = EntOf(s.src[x])
+               /\ niter' = s.ni
                /\ inputs' = Range(s.inp)
                /\ wdlink' = s.wl /\ staged' = s.st /\ res' = s.res /\ launch' = s.launch
 
